@@ -3,6 +3,7 @@ from __future__ import annotations
 
 import os
 import re
+import socket
 import threading
 import time
 
@@ -476,6 +477,8 @@ def enumerate_cases(tier, seed):
     for st_ in ("ForkingTCPServer", "ThreadingTCPServer"):
         for idle in (10, 39):
             yield {"mode": "idle-crowd", "servertype": st_, "idle": idle}
+    for st_ in ("ForkingTCPServer", "ThreadingTCPServer"):
+        yield {"mode": "bad-handshakes", "servertype": st_, "n": 90}
     # a crowd of different large downloads and scripts, all released at once
     for st_ in ("ThreadingTCPServer", "ForkingTCPServer"):
         yield {"mode": "burst", "crowd": True, "servertype": st_}
@@ -536,9 +539,73 @@ def _check_idle_crowd(case, ctx):
         world.rmtree(base)
 
 
+def _check_bad_handshakes(case, ctx):
+    """many connections that fail before a request handler exists (a TLS hello that is garbage, a reset before the first
+    byte, a client that goes away in mid-handshake), one after the other; the server must go on serving afterwards"""
+    import struct
+    base, root = world.build([["readme.txt", "f", "hello\n"], ["d/a.txt", "f", "a\n"]], "c14")
+    srv = None
+    fails = []
+    try:
+        srv = live.Server(live.write_conf(os.path.join(base, "s.conf"), root, "full", case["servertype"], timeout=5))
+        base_threads = srv.threads()
+        for i in range(case["n"]):
+            try:
+                s_ = live.connect(srv.port, 10)
+            except OSError as e:
+                return [Fail("bad-handshakes:%s" % case["servertype"],
+                             "after %d connections that failed before or during the TLS handshake the next connection is not accepted: %r" % (i, e))]
+            try:
+                kind = i % 3
+                if kind == 0:
+                    s_.sendall(b"\x16\x03\x01\x00\x05garbage that is no client hello")
+                elif kind == 1:
+                    s_.setsockopt(socket.SOL_SOCKET, socket.SO_LINGER, struct.pack("ii", 1, 0))  # reset, nothing sent
+                else:
+                    s_.sendall(b"\x16\x03\x01\x02\x00\x01\x00\x01")  # the start of a hello, then the client goes away
+                s_.close()
+            except OSError:
+                pass
+        time.sleep(0.5)
+        ctx.nontriv((case["servertype"], "bad-handshakes", case["n"]))
+        ctx.label("bad-handshakes:%s:%d" % (case["servertype"], case["n"]))
+        ctx.sample(case, cls="bad-handshakes")
+        for i, (req, tls, want) in enumerate([(b"/readme.txt\r\n", False, b"hello\n"), (b"/d/a.txt\r\n", True, b"a\n"),
+                                               (b"/readme.txt\r\n", True, b"hello\n"), (b"/d/a.txt\r\n", False, b"a\n")]):
+            try:
+                got = live.request(srv.port, req, tls, timeout=8)
+            except Exception as e:  # noqa
+                got = e
+            if got != want:
+                fails.append(Fail("bad-handshakes:%s" % case["servertype"],
+                                  "after %d connections that failed before or during the TLS handshake, request %d (%r, tls=%s) is not "
+                                  "answered within 8 s: %r" % (case["n"], i + 1, req, tls, got if isinstance(got, Exception) else got[:60])))
+                break
+        if not fails:
+            deadline = time.time() + 8
+            while time.time() < deadline:
+                livec, zomb = srv.children()
+                th = srv.threads()
+                if zomb == 0 and livec == 0 and (th is None or base_threads is None or th <= base_threads):
+                    break
+                time.sleep(0.2)
+            livec, zomb = srv.children()
+            th = srv.threads()
+            if zomb or livec or (th is not None and base_threads is not None and th > base_threads):
+                fails.append(Fail("bad-handshakes-leftovers:%s" % case["servertype"],
+                                  "8 s after the failed handshakes: %d live and %d zombie children, %s threads (baseline %s)" % (livec, zomb, th, base_threads)))
+        return fails
+    finally:
+        if srv is not None:
+            srv.stop()
+        world.rmtree(base)
+
+
 def check_case(case, ctx):
     if case["mode"] == "idle-crowd":
         return _check_idle_crowd(case, ctx)
+    if case["mode"] == "bad-handshakes":
+        return _check_bad_handshakes(case, ctx)
     if case["mode"] == "burst":
         return _check_burst(case, ctx)
     if case["mode"] == "gated":
